@@ -160,3 +160,8 @@ for p in "sdcz":
     prec(p)
 shared()
 print("hooks applied")
+
+# ---- the caller's workspace as a two-ended stack (repo commit 40939d7): StkInit, StkUsers, StkAlloc, StkFree, StkAdjust in
+# p?memory.c, each inside the critical section of the stack lock, after the change, with (size, used, top1, top2).
+# The ten insertions per precision file are listed in the commit itself (`git -C /repo show 40939d7`); they were applied with the
+# same anchored-replacement discipline (unique anchor, add-only) from an inline script during the build session.
